@@ -4,7 +4,7 @@ from fractions import Fraction
 from .. import bootstrap  # noqa: F401
 from ..gen import gen_adapter, PASS, STEP_POS
 from ..link import run_e3
-from ..model import close
+from ..model import close, convert
 
 ID = "C12"
 LEVEL = "exploration"
@@ -79,6 +79,14 @@ def generate(tape, tier="quick"):
         cons.append({"chain": chain, "units": None})
     # same pre-scaling on both so that totals are comparable
     cons[1]["chain"] = [dict(x) for x in cons[0]["chain"]]
+    # the consumer may ask for other (convertible) units than the adapter delivers
+    ou = units
+    if kind == "sum" and a.get("per_time", True):
+        ou = {"": "s", "m/s": "m", "mm/d": "mm", "m": "m s"}[units]
+    same_dim = {"m": ["m", "km", "mm"], "mm": ["mm", "m", "km"], "m/s": ["m/s", "mm/d"], "mm/d": ["mm/d", "m/s"]}.get(ou)
+    if same_dim and tape.chance(1, 3):
+        cu = tape.choice(same_dim)
+        cons[0]["units"] = cons[1]["units"] = cu
     # interleave: every pull after the first publication >= its time, delayed by 0..3 more publications
     pulls = []
     for ci, ts in enumerate(parts):
@@ -143,7 +151,8 @@ def execute(sc):
                 lo = pubs[i - 1][0] if i > 0 else tp
                 hi = pubs[i + 1][0] if i + 1 < len(pubs) else tp
                 if Fraction(hi) > prev[ci] and Fraction(lo) < t:
-                    contrib.append((vp + base0) * scale)
+                    contrib.append(convert((vp + base0) * scale, sc["src"]["units"], sc["consumers"][0].get("units")
+                                           or sc["src"]["units"]))
             if contrib and done and not (min(contrib) - 1e-9 * (1 + abs(min(contrib))) <= val <= max(contrib) + 1e-9 * (1 + abs(max(contrib)))):
                 viol.append({"oracle": "avg-range", "kind": "range", "consumer": ci,
                              "msg": f"average {val} over ({prev[ci]}, {t}] outside the range [{min(contrib)}, {max(contrib)}] of contributing values"})
